@@ -109,8 +109,6 @@ def gen_cases(ctx):
         for path in PATHS:
             for mi, ct in enumerate(MEDIA):
                 for bname in BODIES:
-                    if ctx.quick and sname != 'default' and path != '/api' and bname not in ('call', 'mixed', 'notif', 'parse'):
-                        continue
                     yield dict(status=sname, path=path, media=mi, body=bname)
 
 
